@@ -68,10 +68,11 @@ type ReqSpec struct {
 }
 
 type OffSpec struct {
-	Zone  string `json:"zone"`
-	CT    string `json:"ct"`
-	Price int    `json:"price"`
-	Resv  string `json:"resv"`
+	Zone    string `json:"zone"`
+	CT      string `json:"ct"`
+	Price   int    `json:"price"`
+	Resv    string `json:"resv"`
+	Unavail bool   `json:"unavail"` // temporarily unavailable (still listed by the provider)
 }
 
 type TypeSpec struct {
@@ -159,7 +160,7 @@ func (s *sim) rebuildCatalog() {
 	for _, t := range s.types {
 		ts := world.TypeSpec{Name: t.Name, CPU: t.CPU, MemMi: t.CPU * 2, Arch: t.Arch}
 		for _, o := range t.Offs {
-			ofs := world.OfferingSpec{Zone: o.Zone, CapacityType: o.CT, Price: o.Price, Available: true}
+			ofs := world.OfferingSpec{Zone: o.Zone, CapacityType: o.CT, Price: o.Price, Available: !o.Unavail}
 			if o.CT == v1.CapacityTypeReserved {
 				ofs.ReservationID = o.Resv
 				ofs.ReservationCap = 10
@@ -626,6 +627,16 @@ func (s *sim) catalogEdit(st Step) {
 				s.types[i].Offs = lo.Reject(s.types[i].Offs, func(o OffSpec, _ int) bool { return o.Zone == st.Zone && o.CT == st.CT })
 			}
 		}
+	case "OfferingUnavailable", "OfferingAvailable":
+		for i := range s.types {
+			if s.types[i].Name == st.T {
+				for j := range s.types[i].Offs {
+					if o := &s.types[i].Offs[j]; o.Zone == st.Zone && o.CT == st.CT {
+						o.Unavail = st.A == "OfferingUnavailable"
+					}
+				}
+			}
+		}
 	case "RestoreCatalog":
 		s.types = s.baseTypes()
 	}
@@ -807,7 +818,7 @@ func (s *sim) obs(after string) {
 	for _, t := range s.types {
 		offs := []trace.M{}
 		for _, o := range t.Offs {
-			offs = append(offs, trace.M{"zone": o.Zone, "ct": o.CT})
+			offs = append(offs, trace.M{"zone": o.Zone, "ct": o.CT, "avail": !o.Unavail})
 		}
 		ts = append(ts, trace.M{"name": t.Name, "offs": offs})
 	}
@@ -855,7 +866,7 @@ func (s *sim) step(st Step) error {
 		} else {
 			skip(w, st.A, "no-claim")
 		}
-	case "RemoveType", "RemoveOffering", "RestoreCatalog":
+	case "RemoveType", "RemoveOffering", "RestoreCatalog", "OfferingUnavailable", "OfferingAvailable":
 		s.catalogEdit(st)
 	case "Tick":
 		w.Clock.Step(time.Duration(st.D) * time.Second)
